@@ -29,6 +29,10 @@ inductive KExpr where
   | ite (c t e : KExpr)
   | cast (t : Ty) (a : KExpr)
   | concat (a b : KExpr)
+  | like (a : KExpr) (pat : String)
+  | substring (s b c : KExpr)
+  | replace (a : KExpr) (frm to : String)
+  | repeat_ (s n : KExpr)
   deriving Repr
 
 /-- `Constant(v)`: builder of `v.data_type()`, `push_n(cardinality, v)`. -/
@@ -72,6 +76,14 @@ def selectTags {α} (s : Arr Bool) (a b : Arr α) : List String :=
   else if (List.zip s (List.zip a b)).any (fun t => t.1.valid && !t.1.raw && (t.2.1.valid != t.2.2.valid))
   then ["select:validity-from-then-branch"]
   else ["select:null-cond-raw-true"]
+
+/-- LIKE: the pattern is translated to a regex without escaping (`.` is a wildcard), the regex
+`.` does not match a line feed, an unclosed `(` is a panic. -/
+def likeTags (p : String) (x : Arr String) : List String :=
+  if likePanics p.toList then ["like:invalid-regex-panics"]
+  else if x.any (fun s => s.valid && likeImpl p s.raw != likeSpec p s.raw) then
+    (if p.toList.contains '.' then ["like:regex-metachar-unescaped"] else ["like:wildcard-skips-newline"])
+  else []
 
 /-- `Evaluator::eval`: result and the reason tags collected at the nodes evaluated. A failing
 node stops the evaluation (`?`). -/
@@ -169,6 +181,42 @@ def evalK (chunk : List Col) (n : Nat) : KExpr → KOut Col × List String
       | (r, tb) => (r, ta ++ tb)
     | (r, ta) => (r, ta)
 
+  | .like a p =>
+    match evalK chunk n a with
+    | (.ok ca, ta) =>
+      let tg := match ca with
+        | .str x => likeTags p x
+        | .null _ => ["kernel:null-typed-operand"]
+        | _ => []
+      (Col.like p ca, ta ++ tg)
+    | (r, ta) => (r, ta)
+  | .substring s b c =>
+    match evalK chunk n s with
+    | (.ok cs, ts) =>
+      match evalK chunk n b with
+      | (.ok cb, tb) =>
+        match evalK chunk n c with
+        | (.ok cc, tc) =>
+          (Col.substring cs cb cc, ts ++ tb ++ tc ++
+            (if cs.ty == .null || cb.ty == .null || cc.ty == .null then ["kernel:null-typed-operand"] else []))
+        | (r, tc) => (r, ts ++ tb ++ tc)
+      | (r, tb) => (r, ts ++ tb)
+    | (r, ts) => (r, ts)
+  | .replace a frm to =>
+    match evalK chunk n a with
+    | (.ok ca, ta) =>
+      (Col.replace frm to ca, ta ++ (if ca.ty == .null then ["kernel:null-typed-operand"] else []))
+    | (r, ta) => (r, ta)
+  | .repeat_ s k =>
+    match evalK chunk n s with
+    | (.ok cs, ts) =>
+      match evalK chunk n k with
+      | (.ok ck, tk) =>
+        (Col.repeat_ cs ck, ts ++ tk ++
+          (if cs.ty == .null || ck.ty == .null then ["kernel:null-typed-operand"] else []))
+      | (r, tk) => (r, ts ++ tk)
+    | (r, ts) => (r, ts)
+
 /-! ### The SQL side: columns of SQL values, operators lifted row by row -/
 
 inductive SCol where
@@ -258,6 +306,12 @@ def specSelRows {α} : List (Option Bool) → List (Option α) → List (Option 
 /-- Row-wise CASE over three columns; columns of different lengths are not a relation. -/
 def specSelM {α} (cs : List (Option Bool)) (xs ys : List (Option α)) : KOut (List (Option α)) :=
   if xs.length ≠ ys.length ∨ cs.length ≠ xs.length then .panic else .ok (specSelRows cs xs ys)
+
+def specSubstrRows : List (Option String) → List (Option Int) → List (Option Int) →
+    List (Option String)
+  | some s :: xs, some b :: ys, some c :: zs => some (substrF s b c) :: specSubstrRows xs ys zs
+  | _ :: xs, _ :: ys, _ :: zs => none :: specSubstrRows xs ys zs
+  | _, _, _ => []
 
 /-- View of a column as a boolean column: a NULL-typed column is an all-NULL boolean one. -/
 def SCol.asBool : SCol → Option (List (Option Bool))
@@ -370,6 +424,44 @@ def specEval (chunk : List SCol) (n : Nat) : KExpr → KOut SCol
         | .str xs, .str ys =>
           (rows2 (fun x y => match x, y with
             | some p, some q => KOut.ok (some (p ++ q))
+            | _, _ => KOut.ok none) xs ys).map .str
+        | _, _ => .err
+      | r => r
+    | r => r
+
+  | .like a p =>
+    match specEval chunk n a with
+    | .ok (.str xs) => .ok (.bool (xs.map (Option.map fun s => likeSpec p s)))
+    | .ok (.null k) => .ok (.bool (List.replicate k none))
+    | .ok _ => .err
+    | r => r
+  | .substring s b c =>
+    match specEval chunk n s with
+    | .ok cs =>
+      match specEval chunk n b with
+      | .ok cb =>
+        match specEval chunk n c with
+        | .ok cc =>
+          match cs, cb, cc with
+          | .str xs, .int .w32 ys, .int .w32 zs => .ok (.str (specSubstrRows xs ys zs))
+          | _, _, _ => .err
+        | r => r
+      | r => r
+    | r => r
+  | .replace a frm to =>
+    match specEval chunk n a with
+    | .ok (.str xs) => .ok (.str (xs.map (Option.map fun s => replaceF frm to s)))
+    | .ok _ => .err
+    | r => r
+  | .repeat_ s k =>
+    match specEval chunk n s with
+    | .ok cs =>
+      match specEval chunk n k with
+      | .ok ck =>
+        match cs, ck with
+        | .str xs, .int .w32 ys =>
+          (rows2 (fun x y => match x, y with
+            | some p, some q => KOut.ok (some (repeatF p q))
             | _, _ => KOut.ok none) xs ys).map .str
         | _, _ => .err
       | r => r
